@@ -85,7 +85,7 @@ def match_known(prop, cex, known):
             continue
         if k.get("harness") and k["harness"] != cex.get("harness"):
             continue
-        if k.get("signature") == sig:
+        if k.get("signature") == sig or sig in (k.get("signatures") or []):
             return k
     return None
 
